@@ -183,3 +183,47 @@ func zzH_C14_markers() {
 	verifAssert(len(r.osStdoutChan) == 1, "next trigger not forwarded")
 	verifReach("again")
 }
+
+// two transfers through the same relay: whatever the first one negotiated (Windows newline, tunnel, refusal), the
+// second handshake works again and is not shaped by stale state
+func zzH_C14_twice() {
+	r := zzRelay14()
+	for round := 0; round < 2; round++ {
+		r.relayStatus.Store(kRelayHandshaking) // what the output pump does on the next trigger
+		nl := "\n"
+		if verifNondetBool() {
+			nl = "!\n"
+		}
+		act := &transferAction{Lang: "go", Version: "1.1.8", Newline: nl, Protocol: 4, SupportBinary: true, SupportDirectory: true}
+		act.Confirm = verifNondetBool()
+		act.TunnelConnected = verifNondetBool()
+		cfg := &transferConfig{Newline: nl, Timeout: 20, Protocol: 4, MaxBufSize: 1024}
+		actLine := zzLine14("ACT", act) // the client always terminates its ACT with LF
+		cfgLine := zzLine14("CFG", cfg)
+		if nl == "!\n" && !act.TunnelConnected {
+			cfgLine = append(cfgLine[:len(cfgLine)-1], '!', '\n') // a server told about a Windows client frames with "!\n"
+		}
+		r.stdinBuffer.addBuffer(actLine)
+		if act.Confirm {
+			r.stdoutBuffer.addBuffer(cfgLine)
+		}
+		verifExpectBlock(1)
+		r.handshake()
+		verifExpectBlock(0)
+		verifAssert(len(r.osStdinChan) == 1, "not exactly one ACT forwarded to the server")
+		<-r.osStdinChan
+		if act.Confirm {
+			verifAssert(len(r.bypassTmuxChan) == 1, "CFG not forwarded to the client")
+			for len(r.bypassTmuxChan) > 0 {
+				<-r.bypassTmuxChan
+			}
+			verifAssert(r.relayStatus.Load() == kRelayTransferring, "confirmed handshake does not end in transferring")
+			r.resetToStandby(kRelayTransferring) // the transfer ends (#EXIT: seen by a pump)
+		} else {
+			verifAssert(r.relayStatus.Load() == kRelayStandBy, "refused transfer leaves the relay out of standby")
+		}
+		verifAssert(!r.tunnelConnected.Load(), "tunnel state kept after the transfer ended")
+		verifReach("round")
+	}
+	verifReach("twice")
+}
